@@ -194,6 +194,32 @@ var c18Kinds = []c18Kind{
 	{"get-relative", "GET /p HTTP/1.1\r\nHost: example.com\r\n", "", "400"},
 }
 
+// Message-framing / connection-persistence header fields a client may legally put on the request
+// (RFC 9110 section 8.6 / 9.3.6, RFC 9112 section 6 and 9.6): they change how net/http frames the
+// request message (req.Body, req.ContentLength, req.Close) but not what the property demands: a
+// CONNECT header ends at its empty line and EVERY byte behind it belongs to the tunnel, whatever
+// length the header announces; the credential gate and the status of a served request do not
+// depend on them either. Index 0 (none) is what the other parts use.
+// Added after the independently seeded change C18-7 (req.Body.Close() on a CONNECT request before
+// taking over the connection: net/http drains Content-Length / chunked "body" bytes from the
+// bufio.Reader, so the first bytes pipelined behind such a CONNECT header never reach the upstream).
+type c18Extra struct{ Name, Lines string }
+
+var c18Extras = []c18Extra{
+	{"none", ""},
+	{"content-length-0", "Content-Length: 0\r\n"},
+	{"content-length-1", "Content-Length: 1\r\n"},
+	{"content-length-5", "Content-Length: 5\r\n"},
+	{"content-length-9", "Content-Length: 9\r\n"},
+	{"content-length-100-more-than-follows", "Content-Length: 100\r\n"},
+	{"transfer-encoding-chunked", "Transfer-Encoding: chunked\r\n"},
+	{"connection-close", "Connection: close\r\n"},
+	{"content-length-5+connection-close", "Content-Length: 5\r\nConnection: close\r\n"},
+	{"connection-keep-alive", "Connection: keep-alive\r\n"},
+	{"proxy-connection-keep-alive", "Proxy-Connection: keep-alive\r\n"},
+	{"expect-100-continue+content-length-5", "Expect: 100-continue\r\nContent-Length: 5\r\n"},
+}
+
 var c18Bodies = [][]byte{nil, []byte("Z"), {0x16, 0x03, 0x01, 0x02, 0x00}, append([]byte{0x16, 0x03, 0x01, 0x02, 0x00}, "late"...)}
 
 type c18Case struct {
@@ -208,10 +234,20 @@ type c18Case struct {
 	// Warm: another local client has authenticated with the right credentials on its own connection
 	// to the same Server before this connection arrives
 	Warm bool `json:"after_another_connection_authenticated,omitempty"`
+	// Extra: index into c18Extras, a framing header field after the Proxy-Authorization lines
+	Extra int `json:"framing_header,omitempty"`
+}
+
+func (c *c18Case) desc() string {
+	d := c18Kinds[c.Kind].Name + "/" + c18AuthVariants[c.Variant].Name
+	if c.Extra != 0 {
+		d += "/" + c18Extras[c.Extra].Name
+	}
+	return d
 }
 
 func (c *c18Case) header() []byte {
-	return []byte(c18Kinds[c.Kind].Head + c18AuthVariants[c.Variant].Lines + "\r\n")
+	return []byte(c18Kinds[c.Kind].Head + c18AuthVariants[c.Variant].Lines + c18Extras[c.Extra].Lines + "\r\n")
 }
 
 func (c *c18Case) stream() []byte {
@@ -386,10 +422,10 @@ type c18HTTPEnum struct {
 func (x *c18HTTPEnum) one(p *evidence.Part, c *c18Case) {
 	p.Evaluations++
 	clause, detail := c18HTTPRun(c)
-	p.Class(c.Kind, c.Variant, c.Body, c.Trunc >= 0, len(c.Cuts) > 2, len(c.Cuts), c.Zero, c.Auth, clause)
+	p.Class(c.Kind, c.Variant, c.Body, c.Trunc >= 0, len(c.Cuts) > 2, len(c.Cuts), c.Zero, c.Auth, c.Extra, clause)
 	if p.Evaluations%1009 == 5 {
 		cc := *c
-		cc.Desc = c18Kinds[c.Kind].Name + "/" + c18AuthVariants[c.Variant].Name
+		cc.Desc = c.desc()
 		p.Sample(&cc)
 	}
 	if clause != "" {
@@ -399,7 +435,7 @@ func (x *c18HTTPEnum) one(p *evidence.Part, c *c18Case) {
 		}
 		x.reported[key] = true
 		cc := *c
-		cc.Desc = c18Kinds[c.Kind].Name + "/" + c18AuthVariants[c.Variant].Name
+		cc.Desc = c.desc()
 		sig := fmt.Sprintf("%s/%s/%s,body=%d,trunc=%d,cuts=%v,zero=%v,auth=%v", p.Name, clause, cc.Desc, c.Body, c.Trunc, c.Cuts, c.Zero, c.Auth)
 		x.sh.Violate(p.Name, sig, detail, &cc)
 	}
@@ -534,10 +570,93 @@ func c18HTTPEnumerate(sh *evidence.Shard) {
 		p2.Exhaustive = false
 		p2.Note("deadline reached inside the chunking enumeration; whole/truncated part complete")
 	}
+
+	// Framing header fields (c18Extras) on every request kind: whole stream (AuthFunc set / nil /
+	// warm server), every truncation, and chunkings, judged by the same clauses as above (gate,
+	// status, exactly one dial, relay-not-intact: every byte behind the CONNECT header reaches the
+	// upstream). Added after the independently seeded change C18-7 (req.Body.Close() on CONNECT
+	// swallows the first Content-Length bytes pipelined behind the header).
+	p3 := sh.Part("http-framing-headers", "enum")
+	var enames []string
+	for _, e := range c18Extras[1:] {
+		enames = append(enames, e.Name)
+	}
+	p3.Alphabet = map[string]any{"requests": knames, "framing_header_after_credentials": enames, "proxy_authorization": vnames, "pipelined_body_len": []int{0, 1, 5, 9}, "auth": alphabet["auth"]}
+	// quick: truncations and chunkings for the three variants that span the gate's outcomes
+	chunkVariants := map[string]bool{"absent": true, "basic-good": true, "basic-bad": true}
+	if th {
+		p3.Bounds = map[string]any{"truncations": "every offset, every variant", "cuts": "<=2 over boundary offsets, plus byte-at-a-time, every variant", "zero_reads": []bool{false, true}}
+	} else {
+		p3.Bounds = map[string]any{"truncations": "every offset; variants absent, basic-good, basic-bad", "cuts": "1 over boundary offsets (line ends -1..+3, separators, header end -3.., every body offset), plus byte-at-a-time; variants absent, basic-good, basic-bad", "zero_reads": []bool{false, true}}
+	}
+	for ki := range c18Kinds {
+		for ei := 1; ei < len(c18Extras); ei++ {
+			for vi, v := range c18AuthVariants {
+				for bi := range c18Bodies {
+					for _, auth := range []bool{true, false} {
+						if mine() {
+							x.one(p3, &c18Case{Kind: ki, Variant: vi, Body: bi, Trunc: -1, Auth: auth, Extra: ei})
+						}
+					}
+					if mine() {
+						x.one(p3, &c18Case{Kind: ki, Variant: vi, Body: bi, Trunc: -1, Auth: true, Warm: true, Extra: ei})
+					}
+					if !th && !chunkVariants[v.Name] {
+						continue
+					}
+					base := c18Case{Kind: ki, Variant: vi, Body: bi, Trunc: -1, Auth: true, Extra: ei}
+					hdr := base.header()
+					n := len(base.stream())
+					if bi == len(c18Bodies)-1 {
+						for l := 0; l < n; l++ {
+							if mine() {
+								cc := base
+								cc.Trunc = l
+								x.one(p3, &cc)
+							}
+						}
+					}
+					run := func(cuts []int) {
+						for _, z := range []bool{false, true} {
+							if !mine() {
+								continue
+							}
+							cc := base
+							cc.Cuts = append([]int(nil), cuts...)
+							cc.Zero = z
+							x.one(p3, &cc)
+						}
+					}
+					offs := c18Offsets(hdr, n)
+					for i, a := range offs {
+						run([]int{a})
+						if !th {
+							continue
+						}
+						for _, b := range offs[i+1:] {
+							run([]int{a, b})
+						}
+					}
+					all := make([]int, 0, n)
+					for o := 1; o < n; o++ {
+						all = append(all, o)
+					}
+					run(all)
+				}
+				if expired {
+					break
+				}
+			}
+		}
+	}
+	if expired {
+		p3.Exhaustive = false
+		p3.Note("deadline reached inside the framing-header enumeration")
+	}
 }
 
 func c18HTTPReplay(part string, raw json.RawMessage) (bool, bool, string) {
-	if part != "http-whole-and-truncated" && part != "http-chunkings" {
+	if part != "http-whole-and-truncated" && part != "http-chunkings" && part != "http-framing-headers" {
 		return false, false, ""
 	}
 	var c c18Case
